@@ -5,8 +5,8 @@ import PetgraphModel.Theorems.C05
 /-
 C06 wave 2 — `adj::List`: the table computed from the storage model (`adjListTable`, Model/C06ViewsList.lean)
 is consistent in every well-formed state (`ListWF`: no node beyond the capacity of the index type, every
-stored successor is an existing node) whose rows are at most 100 long (`ListBounded`: the harness's edge-id
-code `from * 100 + successor_index` identifies an edge only there).
+stored successor is an existing node); no bound on the rows (wave 5: the harness's edge-id code
+`pcode from successor_index` is injective on all pairs).
 
 `ListWF` holds after every history from `List::new()` that fits the index type (`LFits`, the hypothesis of
 `C05_list_all_histories`) and whose `add_node_from_edges` calls only name existing nodes or the new node itself
@@ -82,19 +82,22 @@ theorem rowRefs_tgt (f : Nat) : ∀ (k : Nat) (row : Row),
     simp only [rowRefs, List.map_cons, List.cons.injEq]
     exact ⟨rfl, rowRefs_tgt f (k + 1) xs⟩
 
-theorem eref_id (r : AdjM.ERef) : (eref r).id = r.1 * 100 + r.2.1 := rfl
+theorem eref_id (r : AdjM.ERef) : (eref r).id = pcode r.1 r.2.1 := rfl
 theorem eref_src (r : AdjM.ERef) : (eref r).src = r.1 := rfl
 theorem eref_tgt (r : AdjM.ERef) : (eref r).tgt = r.2.2.1 := rfl
 
-theorem rowRefs_ids_sorted (f : Nat) : ∀ (k : Nat) (row : Row),
-    (((rowRefs f k row).map eref).map (·.id)).Pairwise (· < ·)
+/-- the id codes of one row are pairwise different (`pcode` is injective, the successor indices ascend) -/
+theorem rowRefs_ids_ne (f : Nat) : ∀ (k : Nat) (row : Row),
+    (((rowRefs f k row).map eref).map (·.id)).Pairwise (· ≠ ·)
   | _, [] => by simp [rowRefs]
   | k, x :: xs => by
     simp only [rowRefs, List.map_cons, List.pairwise_cons, List.mem_map]
-    refine ⟨?_, rowRefs_ids_sorted f (k + 1) xs⟩
+    refine ⟨?_, rowRefs_ids_ne f (k + 1) xs⟩
     rintro _ ⟨_, ⟨r, hr, rfl⟩, rfl⟩
     have := mem_rowRefs hr
     simp only [eref_id]
+    intro he
+    have := pcode_inj he
     omega
 
 /-! ### all references -/
@@ -117,19 +120,19 @@ theorem plainRefs_length : ∀ (i : Nat) (rows : List Row),
   | i, row :: rows => by
     simp [plainRefs, rowRefs_length, plainRefs_length (i + 1) rows]
 
-/-- with successor indices below 100 the id codes come out strictly ascending -/
-theorem plainRefs_ids_sorted : ∀ (i : Nat) (rows : List Row), (∀ row ∈ rows, row.length ≤ 100) →
-    (((plainRefs i rows).map eref).map (·.id)).Pairwise (· < ·)
-  | _, [], _ => by simp [plainRefs]
-  | i, row :: rows, hb => by
+/-- the id codes `pcode from successor_index` are pairwise different — for rows of ANY length (wave 5) -/
+theorem plainRefs_ids_ne : ∀ (i : Nat) (rows : List Row),
+    (((plainRefs i rows).map eref).map (·.id)).Pairwise (· ≠ ·)
+  | _, [] => by simp [plainRefs]
+  | i, row :: rows => by
     simp only [plainRefs, List.map_append, List.pairwise_append, List.mem_map]
-    refine ⟨rowRefs_ids_sorted i 0 row,
-      plainRefs_ids_sorted (i + 1) rows (fun r hr => hb r (List.mem_cons_of_mem _ hr)), ?_⟩
+    refine ⟨rowRefs_ids_ne i 0 row, plainRefs_ids_ne (i + 1) rows, ?_⟩
     rintro _ ⟨_, ⟨r, hr, rfl⟩, rfl⟩ _ ⟨_, ⟨r', hr', rfl⟩, rfl⟩
     have h1 := mem_rowRefs hr
     have h2 := mem_plainRefs hr'
-    have h3 := hb row (by simp)
     simp only [eref_id]
+    intro he
+    have := pcode_inj he
     omega
 
 theorem filter_src_rowRefs_eq (a k : Nat) (row : Row) :
@@ -211,14 +214,14 @@ theorem al_compact (s : State) (h : ListWF s) : compactOk (adjListTable s) := by
 /-- the `edge_references` field -/
 def alERefs (s : State) : List ERef := (edgeReferences s).map eref
 
-theorem alERefs_ids_nodup (s : State) (h : ListWF s) (hb : ListBounded s) : ((alERefs s).map (·.id)).Nodup := by
+theorem alERefs_ids_nodup (s : State) (h : ListWF s) : ((alERefs s).map (·.id)).Nodup := by
   unfold alERefs
   rw [edgeReferences_eq s h]
-  exact List.Pairwise.imp (fun hlt => Nat.ne_of_lt hlt) (plainRefs_ids_sorted 0 s.suc hb)
+  exact plainRefs_ids_ne 0 s.suc
 
-theorem al_erefs (s : State) (h : ListWF s) (hb : ListBounded s) : erefsOk (adjListTable s) := by
+theorem al_erefs (s : State) (h : ListWF s) : erefsOk (adjListTable s) := by
   simp only [erefsOk, adjListTable, whenSome_some]
-  refine ⟨alERefs_ids_nodup s h hb, ?_, ?_⟩
+  refine ⟨alERefs_ids_nodup s h, ?_, ?_⟩
   · rw [edgeReferences_eq s h, List.length_map, plainRefs_length]; rfl
   · intro e he
     rw [edgeReferences_eq s h] at he
@@ -341,13 +344,13 @@ theorem al_adj (s : State) (h : ListWF s) : adjOk (nodeIndices s) (adjListTable 
 
 /-! ### the table of `adj::List` is consistent -/
 
-theorem adjListTable_consistent (s : State) (h : ListWF s) (hb : ListBounded s) :
+theorem adjListTable_consistent (s : State) (h : ListWF s) :
     TableConsistent (nodeIndices s) (adjListTable s) where
   ids := al_ids s h
   refs := al_refs s
   index := al_index s h
   compact := al_compact s h
-  erefs := al_erefs s h hb
+  erefs := al_erefs s h
   eix := al_eix s
   nbrs := al_nbrs s h
   nbrsOut := al_nbrsOut s
@@ -583,30 +586,73 @@ theorem run_rowsLe : ∀ (ops : List AdjM.Op) (s : State) (B : Nat), RowsLe B s 
 theorem new_wf (m : Nat) : ListWF (AdjM.new m) :=
   ⟨by simp [AdjM.new], by intro r hr; simp [AdjM.new] at hr⟩
 
-/-- **C06 for `adj::List`, every history** (the hypotheses of `C05_list_all_histories`, plus: the successors
-named by `add_node_from_edges` exist, and the final rows have at most 100 entries): the state reached from
-`List::new()` by any sequence of `add_node*`, `add_edge`, `update_edge`, `edge_weight_mut`, `clear` calls — valid
-or panicking — is the insertion log's image (`LAbs`) and its `visit` table is consistent. -/
+/-! #### wave 5: no `LFits`, no bound on the rows
+
+At the capacity of the index type `add_node*` panics and leaves the list as it was (/repo commit 8cab180), so
+well-formedness needs no hypothesis on the history; the id code `pcode` needs no bound on the rows.  The only side
+condition left is the one the Rust API itself leaves to the caller: `add_node_from_edges` must name existing nodes
+(`OpTargetsOk`, evaluated at the node count of the state the call is made in). -/
+
+/-- **every call preserves well-formedness** (an `add_node_from_edges` call must name existing nodes) -/
+theorem step_wf' (s : State) (op : AdjM.Op) (h : ListWF s) (ht : OpTargetsOk s.suc.length op) :
+    ListWF (step s op).1 := by
+  by_cases hfit : s.modulus = 0 ∨ s.suc.length < s.modulus
+  · exact step_wf s op h (fun _ => hfit) ht
+  · cases op with
+    | addNode => simpa only [step, AdjM.addNode, AdjProofs.nextNodeIndex_full s hfit] using h
+    | addNodeFromEdges es => simpa only [step, AdjM.addNodeFromEdges, AdjProofs.nextNodeIndex_full s hfit] using h
+    | addEdge a b w => exact step_wf s _ h (by rintro (h | ⟨_, h⟩) <;> cases h) ht
+    | updateEdge a b w => exact step_wf s _ h (by rintro (h | ⟨_, h⟩) <;> cases h) ht
+    | setEdgeWeight e w => exact step_wf s _ h (by rintro (h | ⟨_, h⟩) <;> cases h) ht
+    | clear => exact step_wf s _ h (by rintro (h | ⟨_, h⟩) <;> cases h) ht
+
+/-- `OpTargetsOk` along a history, evaluated at the node count of the state each call is made in -/
+def TargetsOkRun : State → List AdjM.Op → Prop
+  | _, [] => True
+  | s, op :: ops => OpTargetsOk s.suc.length op ∧ TargetsOkRun (step s op).1 ops
+
+theorem run_wf' : ∀ (ops : List AdjM.Op) (s : State), ListWF s → TargetsOkRun s ops → ListWF (run s ops).1
+  | [], _, h, _ => h
+  | op :: ops, s, h, ht => by
+    rw [run_cons_fst]
+    exact run_wf' ops _ (step_wf' s op h ht.1) ht.2
+
+/-- the old pair of hypotheses implies the new one -/
+theorem targetsOkRun_of_fits : ∀ (ops : List AdjM.Op) (s : State),
+    AdjProofs.Fits s.modulus s.suc.length ops → TargetsOk s.suc.length ops → TargetsOkRun s ops
+  | [], _, _, _ => trivial
+  | op :: ops, s, hf, ht => by
+    rw [AdjProofs.fits_iff] at hf
+    refine ⟨ht.1, targetsOkRun_of_fits ops _ ?_ ?_⟩
+    · rw [step_modulus, step_length s op hf.1]; exact hf.2
+    · rw [step_length s op hf.1]; exact ht.2
+
+/-- a history without `add_node_from_edges` meets the side condition -/
+theorem targetsOkRun_of_plain : ∀ (ops : List AdjM.Op) (s : State),
+    (∀ op ∈ ops, ∀ es, op ≠ .addNodeFromEdges es) → TargetsOkRun s ops
+  | [], _, _ => trivial
+  | op :: ops, s, h => by
+    refine ⟨?_, targetsOkRun_of_plain ops _ fun o ho => h o (List.mem_cons_of_mem _ ho)⟩
+    cases op with
+    | addNodeFromEdges es => exact absurd rfl (h _ (by simp) es)
+    | _ => trivial
+
+/-- **C06 for `adj::List`, every history** from `List::new()`: any sequence of `add_node*`, `add_edge`,
+`update_edge`, `edge_weight_mut`, `clear` calls — valid or panicking, of any length, up to and beyond the capacity
+of the index type — whose `add_node_from_edges` calls name existing nodes leaves a state that is the insertion
+log's image (`LAbs`) and whose `visit` table is consistent. -/
 theorem adjListTable_consistent_all_histories (m : Nat) (ops : List AdjM.Op)
-    (hf : C05T.LFits m 0 ops) (ht : TargetsOk 0 ops) (hb : ListBounded (run (AdjM.new m) ops).1) :
+    (ht : TargetsOkRun (AdjM.new m) ops) :
     TableConsistent (nodeIndices (run (AdjM.new m) ops).1) (adjListTable (run (AdjM.new m) ops).1) ∧
     C05T.LAbs (run (AdjM.new m) ops).1 (C05T.lspecRun m {} ops).1 :=
-  ⟨adjListTable_consistent _ (run_wf ops (AdjM.new m) (new_wf m) hf ht) hb,
+  ⟨adjListTable_consistent _ (run_wf' ops (AdjM.new m) (new_wf m) ht),
     (C05T.C05_list_all_histories m ops).1⟩
 
-/-- the bound on the rows follows from a bound on the history: at most 100 successor entries are ever added -/
-theorem listBounded_run (m : Nat) (ops : List AdjM.Op) (hbud : budget ops ≤ 100) :
-    ListBounded (run (AdjM.new m) ops).1 := by
-  have h0 : RowsLe 0 (AdjM.new m) := by intro r hr; simp [AdjM.new] at hr
-  have := run_rowsLe ops (AdjM.new m) 0 h0
-  intro r hr
-  have := this r hr
-  omega
-
+/-- the wave-2 statement (hypotheses `LFits`, `TargetsOk`, budget ≤ 100) is a corollary -/
 theorem adjListTable_consistent_all_histories' (m : Nat) (ops : List AdjM.Op)
-    (hf : C05T.LFits m 0 ops) (ht : TargetsOk 0 ops) (hbud : budget ops ≤ 100) :
+    (hf : C05T.LFits m 0 ops) (ht : TargetsOk 0 ops) :
     TableConsistent (nodeIndices (run (AdjM.new m) ops).1) (adjListTable (run (AdjM.new m) ops).1) :=
-  (adjListTable_consistent_all_histories m ops hf ht (listBounded_run m ops hbud)).1
+  (adjListTable_consistent_all_histories m ops (targetsOkRun_of_fits ops (AdjM.new m) hf ht)).1
 
 /-! non-vacuity: a history with a self-loop, parallel edges, an overwrite, a panicking call and a
 `add_node_from_edges` that names the new node itself -/
